@@ -41,10 +41,11 @@ type DispatchModel struct {
 type ConnModel struct {
 	Replies  []ReplyModel
 	Dispatch []DispatchModel
-	// Refused[cid] lists the script action indices whose reply attempt must be refused
+	// Refused[d] lists, for the d-th dispatch of the connection (two calls may carry
+	// the same cid), the script action indices whose reply attempt must be refused
 	// (error to the handler, nothing written).
 	Refused map[int][]int
-	// Accepted[cid] lists the action indices whose reply attempt must succeed.
+	// Accepted[d] lists the action indices whose reply attempt must succeed.
 	Accepted map[int][]int
 	// ServerCloses: the server must end the connection itself (bad frame or handler failure).
 	ServerCloses bool
@@ -323,6 +324,7 @@ func ModelConn(svc ServiceSpec, frames []FrameSpec, stopAfter int, scripts map[i
 				}
 			}
 			cm.Dispatch = append(cm.Dispatch, DispatchModel{Cid: cid, Iface: rt.iface, Method: rt.method, Frame: fi})
+			di := len(cm.Dispatch) - 1
 			sc, ok := scripts[cid]
 			if !ok {
 				sc = Script{Actions: []Action{{Op: "reply"}}}
@@ -332,7 +334,7 @@ func ModelConn(svc ServiceSpec, frames []FrameSpec, stopAfter int, scripts map[i
 				switch a.Op {
 				case "reply":
 					if a.Continues && !pc.more {
-						cm.Refused[cid] = append(cm.Refused[cid], ai)
+						cm.Refused[di] = append(cm.Refused[di], ai)
 						continue
 					}
 					if a.Params != "" && !json.Valid([]byte(a.Params)) {
@@ -340,21 +342,21 @@ func ModelConn(svc ServiceSpec, frames []FrameSpec, stopAfter int, scripts map[i
 						// (for a oneway call nothing is put on the wire anyway: whether the
 						// handler is told is not determined)
 						if !pc.oneway {
-							cm.Refused[cid] = append(cm.Refused[cid], ai)
+							cm.Refused[di] = append(cm.Refused[di], ai)
 						}
 						continue
 					}
-					cm.Accepted[cid] = append(cm.Accepted[cid], ai)
+					cm.Accepted[di] = append(cm.Accepted[di], ai)
 					emit(ReplyModel{Cid: cid, Params: normParams(a.Params), Continues: a.Continues})
 				case "error":
 					if !errorNameSendable(a.Name) {
-						cm.Refused[cid] = append(cm.Refused[cid], ai)
+						cm.Refused[di] = append(cm.Refused[di], ai)
 						continue
 					}
-					cm.Accepted[cid] = append(cm.Accepted[cid], ai)
+					cm.Accepted[di] = append(cm.Accepted[di], ai)
 					emit(ReplyModel{Cid: cid, Params: normParams(a.Params), Error: a.Name})
 				case "builtin":
-					cm.Accepted[cid] = append(cm.Accepted[cid], ai)
+					cm.Accepted[di] = append(cm.Accepted[di], ai)
 					field := map[string]string{"MethodNotFound": "method", "MethodNotImplemented": "method",
 						"InvalidParameter": "parameter", "InterfaceNotFound": "interface"}[a.Name]
 					emit(stdError(cid, a.Name, field, a.Arg))
